@@ -67,11 +67,13 @@ def cell_cal(cls, ch, rate, mode, q):
 
 
 CELL_MARGIN = 60         # whole-signal SNR: 6 dB under the cell's calibrated minimum
+ENDS_MIN = 30            # tenths of dB, see the 'ends' rule in oracle()
 WIN_MARGIN = 80          # worst 256-sample window: 8 dB under the cell's calibrated minimum (deterministic signal classes only)
 
 
 def oracle(line, meta):
-    ch, rate, mode, q, cls = meta
+    ch, rate, mode, q, cls = meta[:5]
+    short = len(meta) > 5          # granule-visibility cases: lengths far below the calibrated ones — the calibrated SNR bounds do not apply
     f = kv(line)
     if f.get("rc") != "0":
         return None                       # this (channels, rate, setting) is not a configuration the encoder offers
@@ -82,7 +84,7 @@ def oracle(line, meta):
     pin, pout = float(f["peakin"]), float(f["peakout"])
     if pout > PEAK_FACTOR * pin + 0.05:
         return "peak: output peak %.3f for input peak %.3f" % (pout, pin)
-    pc = cell_cal(cls, ch, rate, mode, q)
+    pc = None if short else cell_cal(cls, ch, rate, mode, q)
     if pc and len(pc) > 4 and pc[4] > 0 and pout > PEAK_CELL * max(pc[4], 1.0) * pin + 0.05:
         return "peak: output peak %.3f for input peak %.3f; the unchanged encoder stays within %.2f x for this signal, layout and setting" % (pout, pin, pc[4])
     lfe = 5 if (ch == 6 and rate >= 40000) else None      # the 5.1 set-up band-limits its LFE channel by design
@@ -102,6 +104,14 @@ def oracle(line, meta):
             if cls in (0, 4, 5, 7, 8) and cc[1] < 10 ** 8 and c < len(wwin) and not wwin[c].startswith("S") and int(wwin[c]) < cc[1] - WIN_MARGIN:
                 return "burst: channel %d: the worst 256-sample window has its error only %.1f dB under the signal level at %s %s; bound %.1f dB" % (
                     c, int(wwin[c]) / 10.0, "nominal bitrate" if mode else "quality", q, (cc[1] - WIN_MARGIN) / 10.0)
+        # the first and the last 1024 samples (left out by the figures above): where the whole signal is reconstructed 10 dB under its level or
+        # better, the ends of a steady signal may not be worse than 3 dB — a block trimmed at the wrong end or shifted there gives about 0 dB
+        ends = f.get("ends", "").split(",")
+        if cls in (0, 2, 4) and c < len(ends) and "/" in ends[c] and not snrs[c].startswith("S") and int(snrs[c]) >= 100:
+            hd, tl = (int(x) for x in ends[c].split("/"))
+            if tl < ENDS_MIN or hd < ENDS_MIN:
+                return "ends: channel %d: the first / last 1024 samples come out %.1f / %.1f dB under the signal (whole signal %.1f dB): the stream's ends are not where the input's are" % (
+                    c, hd / 10.0, tl / 10.0, int(snrs[c]) / 10.0)
         if cls in LAGCLASSES and lags[c] != "0":
             return "delay: channel %d of the output matches the input best at lag %s, not 0" % (c, lags[c])
         # sparse clicks / bursts can leak between point-coupled channels at the lowest qualities: identity is judged on dense content
@@ -115,7 +125,7 @@ def oracle(line, meta):
                     return "leak: all input channels silent, output peak %.4f" % pout
             elif int(snrs[c][1:]) > -300:
                 return "leak: silent input channel %d comes out only %.1f dB below the loudest channel" % (c, -int(snrs[c][1:]) / 10.0)
-        elif mode == 0 and cls in CAL:
+        elif mode == 0 and cls in CAL and not short:
             if int(snrs[c]) < bound(cls, q):
                 return "noise: channel %d SNR %.1f dB at quality %s, bound %.1f dB (class %d)" % (c, int(snrs[c]) / 10.0, q, bound(cls, q) / 10.0, cls)
         elif mode == 1 and cls in CAL:
@@ -152,6 +162,16 @@ def run(chk):
                                     (2, 8000, 1, 32000), (6, 44100, 1, 288000), (1, 44100, 1, 32000)):
             gens.append((["case %d" % k, "sig %d %d %d %s 40000 %d %d" % (ch, rate, mode, q, cls, 7 + k)], (ch, rate, mode, q, cls)))
             k += 1
+    # granule positions as a demuxer delivers them: a short stream on ONE Ogg page (only the last packet has a position), pages of a few packets;
+    # lengths off every block grid, steady content up to the last sample
+    for j in range(14 if chk.tier == "quick" else 120):
+        ch, rate = chk.rng.choice([(1, 44100), (2, 44100), (2, 48000), (1, 22050), (2, 32000), (3, 44100)])
+        nn = chk.rng.choice([1500, 2500, 4321, 6001, 9000, 12345, 20011]) + chk.rng.randrange(0, 997)
+        vis = 1 if j % 2 == 0 else chk.rng.choice([2, 3, 7])
+        cls = chk.rng.choice([0, 0, 2])
+        q = chk.rng.choice([0.3, 0.5, 0.7, 0.9])
+        gens.append((["case %d" % k, "sig %d %d 0 %s %d %d %d %d" % (ch, rate, q, nn, cls, 7 + k, vis)], (ch, rate, 0, q, cls, vis)))
+        k += 1
     res = vlib.run_harness_only("c06", [g[0] for g in gens], variant="plain", timeout=3000)
     crash, ofail = [], []
     hist = {}
@@ -169,12 +189,16 @@ def run(chk):
         f = kv(line)
         ok = f.get("rc") == "0"
         hist[meta[4]] = hist.get(meta[4], 0) + (1 if ok else 0)
-        if ok and meta[2] == 0 and meta[4] in CAL:
+        if ok and meta[2] == 0 and meta[4] in CAL and len(meta) == 5:
             lfe = 5 if (meta[0] == 6 and meta[1] >= 40000) else None
             s = [int(x) for c, x in enumerate(f["snr"].split(",")) if not x.startswith("S") and c != lfe]
             if s:
                 key = "class%d" % meta[4]
                 worst[key] = min(worst.get(key, 10 ** 9), min(s) - int(bound(meta[4], meta[3])))
+        if ok and "ends" in f and meta[4] in (0, 2, 4):
+            for c, (e, sn) in enumerate(zip(f["ends"].split(","), f["snr"].split(","))):
+                if "/" in e and not sn.startswith("S") and int(sn) >= 100:
+                    worst["ends"] = min(worst.get("ends", 10 ** 9), min(int(x) for x in e.split("/")))
         chk.note_case(ops[1], ok, {"op": ops[1], "answer": line[:200]})
     for r in crash[:4]:
         chk.violation("crash:c06", "implementation aborted", {"stream": "c06", "ops": r["ops"], "exit": r["rc_c"], "stderr": r.get("err_c", "")[-2000:]}, True)
